@@ -356,7 +356,7 @@ pub static PROFILE: Profile = Profile {
     raw,
     build,
     check,
-    budget: Budget { r_cases: (1500, 20000), s_cases: (5000, 40000), s_scheds: (16, 64) },
+    budget: Budget { r_cases: (3000, 20000), s_cases: (8000, 40000), s_scheds: (16, 64) },
     liveness: true,
     enumerate: None,
     extra: None,
